@@ -31,16 +31,24 @@ fn has_null(t: &TableDef, col: usize) -> bool {
     t.rows.iter().any(|r| r[col] == Lit::Null)
 }
 
+fn qn(unq: bool, t: &str, c: &str) -> String {
+    if unq { c.to_string() } else { format!("{}.{}", t, c) }
+}
+
 fn run_case(dbd: &DbDef, r: &mut Rng, model: &mut model::Model, rep: &mut Report) {
     let mut db = Db::new();
     dbd.load(&mut db);
     let (a, b) = (&dbd.tables[0], &dbd.tables[1]);
     let (ta, tb) = (&a.schema.table, &b.schema.table);
+    // one case in four writes every column reference without its table qualifier (column names
+    // are unique across the generated tables, so the meaning is the same)
+    let unq = r.chance(1, 4);
+    rep.count(if unq { "names_unqualified" } else { "names_qualified" });
     // key columns of the same type (INTEGER preferred, VARCHAR sometimes)
     let want = if r.chance(1, 5) && !a.schema.cols_of(Ty::Str).is_empty() && !b.schema.cols_of(Ty::Str).is_empty() { Ty::Str } else { Ty::Int };
     let ka = *r.pick(&a.schema.cols_of(want));
     let kb = *r.pick(&b.schema.cols_of(want));
-    let (ca, cb) = (format!("{}.{}", ta, a.schema.cols[ka].0), format!("{}.{}", tb, b.schema.cols[kb].0));
+    let (ca, cb) = (qn(unq, ta, &a.schema.cols[ka].0), qn(unq, tb, &b.schema.cols[kb].0));
     let case_id = format!("{} {} {}", dbd.sx(), ka, kb);
     let nontrivial = !a.rows.is_empty() && !b.rows.is_empty();
     rep.case(&case_id, nontrivial);
@@ -53,10 +61,10 @@ fn run_case(dbd: &DbDef, r: &mut Rng, model: &mut model::Model, rep: &mut Report
     // an extra single-table predicate to steer pushdown / reordering
     let ga = Gen::new(&a.schema);
     let extra = ga.boolean(r, 1);
-    let names_a: Vec<String> = a.schema.cols.iter().map(|c| format!("{}.{}", ta, c.0)).collect();
+    let names_a: Vec<String> = a.schema.cols.iter().map(|c| qn(unq, ta, &c.0)).collect();
     let extra_sql = extra.sql(&names_a);
     let all_a = names_a.join(", ");
-    let names_b: Vec<String> = b.schema.cols.iter().map(|c| format!("{}.{}", tb, c.0)).collect();
+    let names_b: Vec<String> = b.schema.cols.iter().map(|c| qn(unq, tb, &c.0)).collect();
     let all_ab = format!("{}, {}", all_a, names_b.join(", "));
     let script = dbd.script();
 
@@ -119,8 +127,8 @@ fn run_case(dbd: &DbDef, r: &mut Rng, model: &mut model::Model, rep: &mut Report
     // equality — always against the WHERE-over-cross-product spelling
     let ints_a = a.schema.cols_of(Ty::Int);
     let ints_b = b.schema.cols_of(Ty::Int);
-    let qa = |i: usize| format!("{}.{}", ta, a.schema.cols[i].0);
-    let qb = |i: usize| format!("{}.{}", tb, b.schema.cols[i].0);
+    let qa = |i: usize| qn(unq, ta, &a.schema.cols[i].0);
+    let qb = |i: usize| qn(unq, tb, &b.schema.cols[i].0);
     let mut or_conds: Vec<String> = vec![];
     if ints_b.len() >= 2 {
         or_conds.push(format!("({} = {} OR {} = {})", qa(ints_a[0]), qb(ints_b[0]), qa(ints_a[0]), qb(ints_b[1])));
@@ -147,9 +155,9 @@ fn run_case(dbd: &DbDef, r: &mut Rng, model: &mut model::Model, rep: &mut Report
         let c = &dbd.tables[2];
         let tc = &c.schema.table;
         let kc = c.schema.cols_of(Ty::Int)[0];
-        let cc = format!("{}.{}", tc, c.schema.cols[kc].0);
+        let cc = qn(unq, tc, &c.schema.cols[kc].0);
         let ia = a.schema.cols_of(Ty::Int)[0];
-        let cai = format!("{}.{}", ta, a.schema.cols[ia].0);
+        let cai = qn(unq, ta, &a.schema.cols[ia].0);
         let sel = format!("{}, {}, {}", ca, cb, cc);
         let conds = if want == Ty::Int { format!("{} = {} AND {} = {}", ca, cb, cb, cc) } else { format!("{} = {} AND {} = {}", ca, cb, cai, cc) };
         let mut perms = vec![];
@@ -224,6 +232,33 @@ fn run_case(dbd: &DbDef, r: &mut Rng, model: &mut model::Model, rep: &mut Report
         if unmatched != anti.len() as i64 || !i.iter().all(|x| l.contains(x)) {
             rep.fail(FailKind::Oracle, None, "LEFT JOIN is not INNER JOIN plus one NULL-padded row per unmatched left row", &format!("{}-- left join: {}\n-- inner join: {}", script, lj.brief(), pure.brief()));
         }
+    }
+    // RIGHT JOIN = LEFT JOIN with the sides swapped (same select list by name), with and without a
+    // WHERE predicate on the preserved / the null-supplying side
+    let null_side = format!("{} IS NULL", cb);
+    for (tag, wh) in [("plain", String::new()), ("where_preserved", format!(" WHERE {}", extra_sql)), ("where_null_side", format!(" WHERE {}", null_side)), ("where_coalesce", format!(" WHERE COALESCE({}, {}) = {}", cb, ca, ca))] {
+        family(
+            rep,
+            &format!("outer_join_mirror_{}", tag),
+            vec![
+                format!("SELECT {} FROM {} LEFT JOIN {} ON {} = {}{}", all_ab, ta, tb, ca, cb, wh),
+                format!("SELECT {} FROM {} RIGHT JOIN {} ON {} = {}{}", all_ab, tb, ta, ca, cb, wh),
+                format!("SELECT {} FROM {} RIGHT JOIN {} ON {} = {}{}", all_ab, tb, ta, cb, ca, wh),
+            ],
+            &mut db,
+        );
+    }
+    // FULL OUTER JOIN = LEFT JOIN rows + right rows without a partner (counted through the anti joins)
+    let fj = db.query(&format!("SELECT {} FROM {} FULL OUTER JOIN {} ON {} = {}", all_ab, ta, tb, ca, cb));
+    let fj2 = db.query(&format!("SELECT {} FROM {} FULL OUTER JOIN {} ON {} = {}", all_ab, tb, ta, cb, ca));
+    if let (Some(f), Some(f2), Some(l)) = (bag(&fj), bag(&fj2), bag(&lj)) {
+        rep.count("family_full_join");
+        let (_, anti_b) = model_rows(model, "anti", kb, ka, b, a);
+        if f != f2 || f.len() != l.len() + anti_b.len() || !l.iter().all(|x| f.contains(x)) {
+            rep.fail(FailKind::Oracle, None, "FULL OUTER JOIN is not the LEFT JOIN plus one NULL-padded row per unmatched right row (or differs when the sides are swapped)", &format!("{}-- full join: {}\n-- swapped: {}\n-- left join: {}", script, fj.brief(), fj2.brief(), lj.brief()));
+        }
+    } else if fj.is_panic() || fj2.is_panic() {
+        rep.fail(FailKind::Oracle, None, "FULL OUTER JOIN panicked", &format!("{}=> {}", script, fj.brief()));
     }
 }
 
